@@ -1,5 +1,6 @@
 //! Obligations, one module per property.
 pub mod c03;
+pub mod c04;
 pub mod c07;
 pub mod c12;
 pub mod c13;
@@ -39,3 +40,17 @@ pub fn literal_f32(v: f32) -> std::string::String {
 mod registry;
 #[cfg(not(kani))]
 pub use registry::registry;
+
+/// printable rendering of bytes for notes
+#[cfg(not(kani))]
+pub fn show(b: &[u8]) -> std::string::String {
+    let mut s = std::string::String::new();
+    for &c in b {
+        if c >= 0x20 && c < 0x7f && c != b'\\' {
+            s.push(c as char);
+        } else {
+            s.push_str(&std::format!("\\x{:02x}", c));
+        }
+    }
+    s
+}
